@@ -139,7 +139,7 @@ type watcher struct {
 	mu     sync.Mutex
 	calls  int
 	times  []time.Time // time of every loader invocation
-	pubsAt []int       // number of publications received when the i-th invocation happened (gap stream)
+	pubsAt [][]int     // what was published between invocation i-1 and i (nil: nothing); taken by the loader itself
 	stop   bool
 	stopCh chan struct{}
 	done   chan struct{}
@@ -161,6 +161,13 @@ func startWatch(in watchIn, mats []map[string][]byte, limit int) *watcher {
 		i := w.calls
 		w.calls++
 		w.times = append(w.times, time.Now())
+		// this runs on the watcher's goroutine: what it published since its previous invocation is in the channel
+		select {
+		case cs := <-w.ch:
+			w.pubsAt = append(w.pubsAt, certIDs(cs))
+		default:
+			w.pubsAt = append(w.pubsAt, nil)
+		}
 		w.mu.Unlock()
 		if i >= limit {
 			<-w.stopCh
@@ -266,7 +273,8 @@ func runWatch(raw json.RawMessage) (interface{}, error) {
 	out := watchOut{}
 	deadline := time.Now().Add(20 * time.Second)
 	for {
-		w.drain()
+		// no draining here: during the run only the loader (on the watcher's goroutine) takes publications, so
+		// their order and their pairing with the invocations is exact; the loop drains once at the end
 		w.mu.Lock()
 		calls := w.calls
 		w.mu.Unlock()
@@ -296,10 +304,30 @@ func runWatch(raw json.RawMessage) (interface{}, error) {
 		time.Sleep(100 * time.Microsecond)
 	}
 	w.mu.Lock()
-	if out.Calls != -1 {
-		out.Calls = w.calls
+	// "up to the first sleep": if this polling loop was starved long enough for the watcher to wake up again,
+	// cut the observation at the first pause of >= 900 ms between two invocations (a sleep lasts >= 1 s, every
+	// other step takes microseconds). pubsAt[j] is what was published after invocation j-1.
+	n := len(w.times)
+	cut := n
+	for j := 1; j < n; j++ {
+		if w.times[j].Sub(w.times[j-1]) >= 900*time.Millisecond {
+			cut = j
+			break
+		}
 	}
-	out.Pubs = w.pubs
+	pubs := [][]int{}
+	for j := 1; j < n && j <= cut; j++ {
+		if w.pubsAt[j] != nil {
+			pubs = append(pubs, w.pubsAt[j])
+		}
+	}
+	if cut == n {
+		pubs = append(pubs, w.pubs...) // published after the last invocation, drained by the loop above
+	}
+	if out.Calls != -1 {
+		out.Calls = cut
+	}
+	out.Pubs = pubs
 	w.mu.Unlock()
 	w.finish()
 	return out, nil
